@@ -312,6 +312,467 @@ theorem reuse_of_swept_elems_is_refuted :
     readFetched false ⟨fun _ => ⟨43690, 10⟩, 1, []⟩ 0 [.sweep 0, .store 48059 1000] 50 = .miss ∧
     readFetched true ⟨fun _ => ⟨43690, 100⟩, 1, []⟩ 0 [.sweep 0] 50 = .hit 0 100 := by decide
 
+/-! ## `RangeDo` on the shard map -/
+
+theorem rangeDo_length_le (f : RangeF) (s : Shard) : (s.rangeDo f).length ≤ s.length := by
+  simp only [Shard.rangeDo]; exact List.length_filterMap_le _ _
+
+theorem answer_key (f : RangeF) (e0 e : Entry) (h : f.answer e0 = some (some e)) : e.key = e0.key := by
+  simp only [RangeF.answer] at h
+  split at h
+  · split at h
+    · simp only [Option.some.injEq] at h; rw [← h]
+    · cases h
+    · split at h <;> cases h
+  · cases h
+
+/-- what a pass leaves in a shard: an entry the callback kept, or the callback's new value for an entry of the same key;
+it never introduces a key -/
+theorem rangeDo_mem (f : RangeF) (s : Shard) (e : Entry) (h : e ∈ s.rangeDo f) :
+    ∃ e0 ∈ s, e0.key = e.key ∧ ((f.answer e0 = none ∧ e = e0) ∨ f.answer e0 = some (some e)) := by
+  simp only [Shard.rangeDo, List.mem_filterMap] at h
+  obtain ⟨e0, he0, hm⟩ := h
+  refine ⟨e0, he0, ?_⟩
+  cases ha : f.answer e0 with
+  | none =>
+    rw [ha] at hm
+    simp only [Option.some.injEq] at hm
+    exact ⟨by rw [hm], Or.inl ⟨rfl, hm.symm⟩⟩
+  | some r =>
+    rw [ha] at hm
+    simp only at hm
+    subst hm
+    exact ⟨(answer_key f e0 e ha).symm, Or.inr rfl⟩
+
+theorem mstep_bounded (sumOf : Nat → Nat) (c : Cache) (op : MOp) (hp : 0 < c.perShard) (hb : Bounded c) :
+    Bounded (c.mstep sumOf op).1 ∧ (c.mstep sumOf op).1.perShard = c.perShard := by
+  have hrem : ∀ k, Bounded (modifyShard c (shardOf sumOf k) (·.remove k)) := by
+    intro k i
+    simp only [modifyShard]
+    split
+    · exact Nat.le_trans (remove_length_le _ _) (hb _)
+    · exact hb i
+  cases op with
+  | base op => exact step_bounded sumOf c op hp hb
+  | del key => exact ⟨hrem key, rfl⟩
+  | range f =>
+    refine ⟨?_, rfl⟩
+    intro i
+    simp only [Cache.mstep]
+    exact Nat.le_trans (rangeDo_length_le f _) (hb i)
+  | tas key act =>
+    simp only [Cache.mstep]
+    split
+    · rename_i e hl
+      split
+      · exact ⟨hb, rfl⟩
+      · exact ⟨hrem key, rfl⟩
+      · refine ⟨?_, rfl⟩
+        intro i
+        simp only [modifyShard]
+        split
+        · rename_i hi
+          have hlt := remove_length_lt (c.shards (shardOf sumOf key)) key (by rw [hl]; rfl)
+          have := hb (shardOf sumOf key)
+          simp only [List.length_cons, hi]; omega
+        · exact hb i
+    · exact ⟨hb, rfl⟩
+
+theorem mrun_bounded (sumOf : Nat → Nat) (ops : List MOp) : ∀ (c : Cache), 0 < c.perShard → Bounded c →
+    Bounded (c.mrun sumOf ops).1 ∧ (c.mrun sumOf ops).1.perShard = c.perShard := by
+  induction ops with
+  | nil => intro c _ hb; exact ⟨hb, rfl⟩
+  | cons op ops ih =>
+    intro c hp hb
+    simp only [Cache.mrun]
+    have h1 := mstep_bounded sumOf c op hp hb
+    have h2 := ih (c.mstep sumOf op).1 (by rw [h1.2]; exact hp) h1.1
+    exact ⟨h2.1, h2.2.trans h1.2⟩
+
+/-- **`concurrent_map.Map` with a maximum never holds more than 64 * (size / 64) <= size entries**, after any sequence of
+set / get / del / flush / TestAndSet on present keys / RangeDo with setting and deleting callbacks -/
+theorem map_len_le (sumOf : Nat → Nat) (size : Nat) (hs : shardCount ≤ size) (ops : List MOp) :
+    ((Cache.new 0 size).mrun sumOf ops).1.len ≤ size := by
+  have hc : clampSize 0 (size : Int) = size := by unfold clampSize; split <;> omega
+  have hp : 0 < (Cache.new 0 size).perShard := by
+    simp only [Cache.new, hc]
+    exact Nat.div_pos hs (by decide)
+  have hb : Bounded (Cache.new 0 size) := fun i => by simp [Cache.new]
+  have := mrun_bounded sumOf ops _ hp hb
+  have hsum := sum_le (fun i => (((Cache.new 0 size).mrun sumOf ops).1.shards i).length) _ this.1 shardCount
+  simp only [Cache.len]
+  rw [this.2] at hsum
+  simp only [Cache.new, hc] at hsum
+  calc _ ≤ shardCount * (size / shardCount) := hsum
+    _ ≤ size := Nat.mul_div_le _ _
+
+theorem mstep_exact (sumOf : Nat → Nat) (c : Cache) (spec : Nat → Option Entry) (op : MOp) (h : Exact sumOf c spec) :
+    Exact sumOf (c.mstep sumOf op).1 (mspecStep spec op) := by
+  have hrem : ∀ key (spec' : Nat → Option Entry), (∀ k, k ≠ key → spec' k = spec k) →
+      Exact sumOf (modifyShard c (shardOf sumOf key) (·.remove key)) spec' := by
+    intro key spec' hs i e he
+    simp only [modifyShard] at he
+    split at he
+    · have hm := mem_remove _ _ _ he
+      have := h i e hm.1
+      exact ⟨by rw [hs _ hm.2]; exact this.1, this.2⟩
+    · rename_i hi
+      have := h i e he
+      have hk : e.key ≠ key := by
+        intro hk
+        rw [hk] at this
+        exact hi this.2.symm
+      exact ⟨by rw [hs _ hk]; exact this.1, this.2⟩
+  cases op with
+  | base op => exact step_exact sumOf c spec op h
+  | del key => exact hrem key _ (fun k hk => by simp [mspecStep, hk])
+  | range f =>
+    intro i e he
+    simp only [Cache.mstep] at he
+    obtain ⟨e0, he0, hk, hans⟩ := rangeDo_mem f _ e he
+    have h0 := h i e0 he0
+    refine ⟨?_, by rw [← hk]; exact h0.2⟩
+    simp only [mspecStep, ← hk, h0.1, applyAnswer]
+    rcases hans with ⟨hn, rfl⟩ | hs
+    · rw [hn]
+    · rw [hs]
+  | tas key act =>
+    simp only [Cache.mstep]
+    split
+    · rename_i e0 hl
+      have hm := lookup_mem _ _ _ hl
+      have h0 := h _ e0 hm.1
+      rw [hm.2] at h0
+      split
+      · rename_i hn
+        intro i e he
+        have := h i e he
+        refine ⟨?_, this.2⟩
+        simp only [mspecStep]
+        split
+        · rename_i hk
+          rw [hk] at this ⊢
+          rw [h0.1] at this ⊢
+          simp only [applyAnswer, hn]
+          exact this.1
+        · exact this.1
+      · exact hrem key _ (fun k hk => by simp [mspecStep, hk])
+      · rename_i e' hs
+        intro i e he
+        simp only [modifyShard] at he
+        have hk' := answer_key _ _ _ hs
+        split at he
+        · rename_i hi
+          simp only [List.mem_cons] at he
+          rcases he with rfl | he
+          · refine ⟨?_, by rw [hk', hm.2]; exact hi.symm⟩
+            simp only [mspecStep, hk', hm.2, h0.1, applyAnswer, hs, ↓reduceIte]
+          · have hmr := mem_remove _ _ _ he
+            have := h i e hmr.1
+            exact ⟨by simp only [mspecStep, hmr.2, ↓reduceIte]; exact this.1, this.2⟩
+        · rename_i hi
+          have := h i e he
+          have hk : e.key ≠ key := by
+            intro hk
+            rw [hk] at this
+            exact hi this.2.symm
+          exact ⟨by simp only [mspecStep, hk, ↓reduceIte]; exact this.1, this.2⟩
+    · rename_i hl
+      intro i e he
+      have := h i e he
+      have hk : e.key ≠ key := by
+        intro hk
+        by_cases hi : i = shardOf sumOf key
+        · subst hi
+          simp only [Shard.lookup, List.find?_eq_none] at hl
+          exact hl e he (by simp [hk])
+        · rw [hk] at this
+          exact hi this.2.symm
+      exact ⟨by simp only [mspecStep, hk, ↓reduceIte]; exact this.1, this.2⟩
+
+theorem mrun_exact (sumOf : Nat → Nat) (ops : List MOp) : ∀ (c : Cache) (spec : Nat → Option Entry), Exact sumOf c spec →
+    Exact sumOf (c.mrun sumOf ops).1 (mspecRun spec ops) := by
+  induction ops with
+  | nil => intro c spec h; exact h
+  | cons op ops ih =>
+    intro c spec h
+    simp only [Cache.mrun, mspecRun]
+    exact ih _ _ (mstep_exact sumOf c spec op h)
+
+/-- **A lookup in `concurrent_map.Map` returns nothing, or exactly what the specification holds under that key**: the
+value last set, modified by the answers that later passes (`RangeDo`) and `TestAndSet` calls computed from exactly that
+value, not deleted or flushed since - every operation being one atomic step. No update is lost and no flushed or
+evicted entry comes back. -/
+theorem map_get_exact (sumOf : Nat → Nat) (size : Int) (ops : List MOp) (key val exp : Nat)
+    (hhit : (((Cache.new 0 size).mrun sumOf ops).1.step sumOf (.get key 0)).2 = .hit val exp) :
+    mspecRun (fun _ => none) ops key = some ⟨key, val, exp⟩ := by
+  have hex := mrun_exact sumOf ops (Cache.new 0 size) (fun _ => none) (by intro i e he; simp [Cache.new] at he)
+  simp only [Cache.step] at hhit
+  split at hhit
+  · rename_i e hl
+    split at hhit
+    · cases hhit
+    · simp only [Ret.hit.injEq] at hhit
+      have hm := lookup_mem _ _ _ hl
+      have := (hex _ e hm.1).1
+      rw [hm.2] at this
+      obtain ⟨k, v, x⟩ := e
+      simp only at hm hhit
+      obtain ⟨rfl, rfl⟩ := hhit
+      rw [this, hm.2]
+  · cases hhit
+
+/-- whether the code runs `rangeDo` as one critical section that applies each answer on the spot, as read from the source -/
+def rangeOneSection : Bool :=
+  Gen.Facts.c11OneCriticalSectionPerMethod == some true && Gen.Facts.c11RangeDoAppliesInPlace == some true
+
+/-- **Whatever other goroutines do to the shard while a `RangeDo` pass is under way happens after the whole pass** (they
+wait for the shard lock): the pass is the atomic `Shard.rangeDo`, so it cannot undo a store, a flush or an eviction that
+it did not see. Holds for the critical sections read from the source; `by decide` fails if `rangeDo` releases the lock
+between looking at the entries and modifying them. -/
+theorem rangeDo_is_one_step (f : RangeF) (s : Shard) (between : Shard → Shard) :
+    Shard.rangeDoIn rangeOneSection f s between = between (s.rangeDo f) := by
+  have h : rangeOneSection = true := by decide
+  rw [h]; rfl
+
+/-- a pass that collects its modifications, releases the lock and applies them later is refuted: with key 7 holding 1
+and a callback that adds 100, (a) a `Flush` in the window is undone (the flushed entry is back), (b) in a shard with
+maximum 1 a store of key 71 in the window (which evicts key 7) leaves two entries, (c) a store of 2 under key 7 in the
+window is lost: the shard ends with 101, neither 2 nor 102; the one-section pass gives nothing / one entry / 2 -/
+theorem split_rangeDo_is_refuted :
+    Shard.rangeDoIn false ⟨1, 0, .setAdd 100⟩ [⟨7, 1, 0⟩] (fun _ => []) = [⟨7, 101, 0⟩] ∧
+    Shard.rangeDoIn true ⟨1, 0, .setAdd 100⟩ [⟨7, 1, 0⟩] (fun _ => []) = [] ∧
+    (Shard.rangeDoIn false ⟨1, 0, .setAdd 100⟩ [⟨7, 1, 0⟩] (fun s => s.set 1 ⟨71, 5, 0⟩ [])).length = 2 ∧
+    (Shard.rangeDoIn true ⟨1, 0, .setAdd 100⟩ [⟨7, 1, 0⟩] (fun s => s.set 1 ⟨71, 5, 0⟩ [])).length = 1 ∧
+    Shard.rangeDoIn false ⟨1, 0, .setAdd 100⟩ [⟨7, 1, 0⟩] (fun s => s.set 0 ⟨7, 2, 0⟩ []) = [⟨7, 101, 0⟩] ∧
+    Shard.rangeDoIn true ⟨1, 0, .setAdd 100⟩ [⟨7, 1, 0⟩] (fun s => s.set 0 ⟨7, 2, 0⟩ []) = [⟨7, 2, 0⟩] := by decide
+
+/-! ## pkg/lru and pkg/concurrent_lru -/
+
+theorem lru_lookup_mem (q : Lru) (k : Nat) (e : KV) (h : q.lookup k = some e) : e ∈ q ∧ e.key = k := by
+  simp only [Lru.lookup] at h
+  exact ⟨List.mem_of_find?_eq_some h, by simpa using List.find?_some h⟩
+
+theorem lru_lookup_none (q : Lru) (k : Nat) (h : q.lookup k = none) : ∀ e ∈ q, e.key ≠ k := by
+  simp only [Lru.lookup, List.find?_eq_none] at h
+  intro e he hk
+  exact h e he (by simp [hk])
+
+theorem lru_mem_without (q : Lru) (k : Nat) (e : KV) (h : e ∈ q.without k) : e ∈ q ∧ e.key ≠ k := by
+  simp only [Lru.without, List.mem_filter, bne_iff_ne] at h
+  exact h
+
+theorem lru_without_length_lt (q : Lru) (k : Nat) (e : KV) (h : q.lookup k = some e) : (q.without k).length < q.length := by
+  have hm := lru_lookup_mem q k e h
+  simp only [Lru.without]
+  apply List.length_filter_lt_length_iff_exists.mpr
+  exact ⟨e, hm.1, by simp [hm.2]⟩
+
+theorem lru_add_mem (max : Nat) (q : Lru) (k v : Nat) (x : KV) (hx : x ∈ (q.add true max k v).1) :
+    x = ⟨k, v⟩ ∨ (x ∈ q ∧ x.key ≠ k) := by
+  simp only [Lru.add] at hx
+  split at hx
+  · simp only [Bool.not_true, Bool.false_and, Bool.false_eq_true, ↓reduceIte, List.mem_append, List.mem_singleton] at hx
+    rcases hx with h | h
+    · exact Or.inr (lru_mem_without _ _ _ h)
+    · exact Or.inl h
+  · rename_i hn
+    simp only [List.mem_append, List.mem_singleton] at hx
+    rcases hx with h | h
+    · have hq := List.mem_of_mem_drop h
+      exact Or.inr ⟨hq, lru_lookup_none q k hn x hq⟩
+    · exact Or.inl h
+
+theorem lru_add_length (stores : Bool) (max : Nat) (hmax : 0 < max) (q : Lru) (k v : Nat) (hq : q.length ≤ max) :
+    (q.add stores max k v).1.length ≤ max := by
+  simp only [Lru.add]
+  split
+  · rename_i e he
+    split
+    · exact hq
+    · have := lru_without_length_lt q k e he
+      simp only [List.length_append, List.length_cons, List.length_nil]; omega
+  · simp only [List.length_append, List.length_drop, List.length_cons, List.length_nil]; omega
+
+def LBounded (c : SLru) : Prop := ∀ i, (c.shards i).length ≤ c.max
+
+theorem lru_step_bounded (stores : Bool) (sumOf : Nat → Nat) (c : SLru) (op : LOp) (hp : 0 < c.max) (hb : LBounded c) :
+    LBounded (c.step stores sumOf op).1 ∧ (c.step stores sumOf op).1.max = c.max ∧ (c.step stores sumOf op).1.n = c.n := by
+  have hmod : ∀ i q, q.length ≤ c.max → LBounded (c.modify i q) := by
+    intro i q hq j
+    simp only [SLru.modify]
+    split
+    · exact hq
+    · exact hb j
+  cases op with
+  | add k v => exact ⟨hmod _ _ (lru_add_length stores c.max hp _ k v (hb _)), rfl, rfl⟩
+  | get k =>
+    simp only [SLru.step]
+    split
+    · rename_i e he
+      refine ⟨hmod _ _ ?_, rfl, rfl⟩
+      have := lru_without_length_lt _ k e he
+      have := hb (c.shardOf sumOf k)
+      simp only [List.length_append, List.length_cons, List.length_nil]; omega
+    · exact ⟨hb, rfl, rfl⟩
+  | del k =>
+    simp only [SLru.step]
+    split
+    · rename_i e he
+      refine ⟨hmod _ _ ?_, rfl, rfl⟩
+      have := lru_without_length_lt _ k e he
+      have := hb (c.shardOf sumOf k)
+      omega
+    · exact ⟨hb, rfl, rfl⟩
+  | pop =>
+    simp only [SLru.step]
+    split
+    · rename_i e rest he
+      refine ⟨hmod _ _ ?_, rfl, rfl⟩
+      have := hb 0
+      rw [he] at this
+      simp only [List.length_cons] at this; omega
+    · exact ⟨hb, rfl, rfl⟩
+  | clean m r =>
+    refine ⟨?_, rfl, rfl⟩
+    intro i
+    simp only [SLru.step]
+    exact Nat.le_trans (List.length_filter_le _ _) (hb i)
+  | flush => exact ⟨fun i => by simp [SLru.step], rfl, rfl⟩
+  | len => exact ⟨hb, rfl, rfl⟩
+
+theorem lru_run_bounded (stores : Bool) (sumOf : Nat → Nat) (ops : List LOp) : ∀ (c : SLru), 0 < c.max → LBounded c →
+    LBounded (c.run stores sumOf ops).1 ∧ (c.run stores sumOf ops).1.max = c.max ∧ (c.run stores sumOf ops).1.n = c.n := by
+  induction ops with
+  | nil => intro c _ hb; exact ⟨hb, rfl, rfl⟩
+  | cons op ops ih =>
+    intro c hp hb
+    simp only [SLru.run]
+    have h1 := lru_step_bounded stores sumOf c op hp hb
+    have h2 := ih (c.step stores sumOf op).1 (by rw [h1.2.1]; exact hp) h1.1
+    exact ⟨h2.1, h2.2.1.trans h1.2.1, h2.2.2.trans h1.2.2⟩
+
+/-- **An LRU (plain, or sharded with `n` shards) never holds more than `n * max` entries**, whatever `Add` does on an
+update, after any sequence of Add / Get / Del / PopOldest / Clean / Flush -/
+theorem lru_len_le (stores : Bool) (sumOf : Nat → Nat) (n max : Nat) (hmax : 0 < max) (ops : List LOp) :
+    ((SLru.new n max).run stores sumOf ops).1.len ≤ n * max := by
+  have hb : LBounded (SLru.new n max) := fun i => by simp [SLru.new]
+  have h := lru_run_bounded stores sumOf ops (SLru.new n max) hmax hb
+  have hle : ∀ i, (((SLru.new n max).run stores sumOf ops).1.shards i).length ≤ max := by
+    intro i
+    have := h.1 i
+    rw [h.2.1] at this
+    exact this
+  have hs := sum_le (fun i => (((SLru.new n max).run stores sumOf ops).1.shards i).length) max hle n
+  simp only [SLru.len]
+  rw [h.2.2]
+  exact hs
+
+def LExact (sumOf : Nat → Nat) (c : SLru) (spec : Nat → Option Nat) : Prop :=
+  ∀ i, ∀ e ∈ c.shards i, spec e.key = some e.val ∧ c.shardOf sumOf e.key = i
+
+theorem lru_step_exact (sumOf : Nat → Nat) (c : SLru) (spec : Nat → Option Nat) (op : LOp) (h : LExact sumOf c spec) :
+    LExact sumOf (c.step true sumOf op).1 (lspecStep spec op) ∧ (c.step true sumOf op).1.n = c.n := by
+  have hsub : ∀ i (q : Lru), (∀ x ∈ q, x ∈ c.shards i) → LExact sumOf (c.modify i q) spec := by
+    intro i q hq j e he
+    simp only [SLru.modify] at he
+    split at he
+    · rename_i hj
+      subst hj
+      exact h j e (hq e he)
+    · exact h j e he
+  cases op with
+  | add k v =>
+    refine ⟨?_, rfl⟩
+    intro j e he
+    simp only [SLru.step, SLru.modify] at he
+    simp only [lspecStep]
+    split at he
+    · rename_i hj
+      rcases lru_add_mem _ _ _ _ _ he with rfl | ⟨hm, hk⟩
+      · exact ⟨by simp, hj.symm⟩
+      · have := h _ e hm
+        exact ⟨by simp [hk, this.1], by rw [hj]; exact this.2⟩
+    · rename_i hj
+      have := h j e he
+      have hk : e.key ≠ k := by
+        intro hk
+        rw [hk] at this
+        exact hj this.2.symm
+      exact ⟨by simp [hk, this.1], this.2⟩
+  | get k =>
+    simp only [SLru.step, lspecStep]
+    split
+    · rename_i e he
+      refine ⟨hsub _ _ ?_, rfl⟩
+      intro x hx
+      simp only [List.mem_append, List.mem_singleton] at hx
+      rcases hx with hx | hx
+      · exact (lru_mem_without _ _ _ hx).1
+      · rw [hx]; exact (lru_lookup_mem _ _ _ he).1
+    · exact ⟨h, rfl⟩
+  | del k =>
+    simp only [SLru.step, lspecStep]
+    split
+    · exact ⟨hsub _ _ (fun x hx => (lru_mem_without _ _ _ hx).1), rfl⟩
+    · exact ⟨h, rfl⟩
+  | pop =>
+    simp only [SLru.step, lspecStep]
+    split
+    · rename_i e rest he
+      exact ⟨hsub _ _ (fun x hx => by rw [he]; exact List.mem_cons_of_mem _ hx), rfl⟩
+    · exact ⟨h, rfl⟩
+  | clean m r =>
+    refine ⟨?_, rfl⟩
+    intro i e he
+    simp only [SLru.step, List.mem_filter] at he
+    exact h i e he.1
+  | flush => exact ⟨fun i e he => by simp [SLru.step] at he, rfl⟩
+  | len => exact ⟨h, rfl⟩
+
+theorem lru_run_exact (sumOf : Nat → Nat) (ops : List LOp) : ∀ (c : SLru) (spec : Nat → Option Nat), LExact sumOf c spec →
+    LExact sumOf (c.run true sumOf ops).1 (lspecRun spec ops) := by
+  induction ops with
+  | nil => intro c spec h; exact h
+  | cons op ops ih =>
+    intro c spec h
+    simp only [SLru.run, lspecRun]
+    exact ih _ _ (lru_step_exact sumOf c spec op h).1
+
+/-- whether an update through `LRU.Add` always writes the new value, as read from the source -/
+def lruStores : Bool := Gen.Facts.c11LruUpdateStoresFirst == some true
+
+/-- **A lookup in an LRU (plain, locked or sharded) returns nothing, or exactly the value most recently added under that
+key and not flushed since** - after any sequence of Add / Get / Del / PopOldest / Clean / Flush, for every number of shards,
+every maximum and every hash. Holds for the `Add` read from the source; `by decide` fails if an update can return before
+the value is written. Under concurrency every method of `ConcurrentLRU` is one critical section (regenerated fact), so a
+concurrent history is an interleaving of these steps. -/
+theorem lru_get_exact (sumOf : Nat → Nat) (n max : Nat) (ops : List LOp) (key val : Nat)
+    (hhit : (((SLru.new n max).run lruStores sumOf ops).1.step lruStores sumOf (.get key)).2 = .hit val) :
+    lspecRun (fun _ => none) ops key = some val := by
+  have hs : lruStores = true := by decide
+  rw [hs] at hhit
+  have hex := lru_run_exact sumOf ops (SLru.new n max) (fun _ => none) (by intro i e he; simp [SLru.new] at he)
+  simp only [SLru.step] at hhit
+  split at hhit
+  · rename_i e hl
+    simp only [LRet.hit.injEq] at hhit
+    have hm := lru_lookup_mem _ _ _ hl
+    have := (hex _ e hm.1).1
+    rw [hm.2, hhit] at this
+    exact this
+  · cases hhit
+
+/-- an `Add` that returns early when the key is already the newest entry is refuted: after add 1:=10, add 1:=20 the lookup
+of 1 returns 10, a value overwritten before the lookup began (also after a hit made the key the newest: get, add, get);
+the `Add` that writes first returns 20 -/
+theorem lru_add_returning_early_is_refuted :
+    ((SLru.new 1 4).run false id [.add 1 10, .add 1 20, .get 1]).2 = [.evicted [], .evicted [], .hit 10] ∧
+    ((SLru.new 1 4).run true id [.add 1 10, .add 1 20, .get 1]).2 = [.evicted [], .evicted [], .hit 20] ∧
+    ((SLru.new 1 4).run false id [.add 1 10, .add 2 11, .get 1, .add 1 20, .get 1]).2 =
+      [.evicted [], .evicted [], .hit 10, .evicted [], .hit 10] ∧
+    lspecRun (fun _ => none) [.add 1 10, .add 1 20] 1 = some 20 := by decide
+
 /-! ## tie to the source -/
 
 theorem facts_guard :
@@ -320,12 +781,19 @@ theorem facts_guard :
     Gen.Facts.c11LockDiscipline = some true ∧ Gen.Facts.c11MapAccessSites = some 15 ∧
     Gen.Facts.c11SetEvictsBeforeInsert = some true ∧ Gen.Facts.c11GetHidesExpired = some true ∧
     Gen.Facts.c11StoreSkipsExpired = some true ∧ Gen.Facts.c11GcRemovesExpired = some true ∧
-    Gen.Facts.c11ElemsWrittenOnlyAtCreation = some true := by decide
+    Gen.Facts.c11ElemsWrittenOnlyAtCreation = some true ∧
+    Gen.Facts.c11OneCriticalSectionPerMethod = some true ∧ Gen.Facts.c11RangeDoAppliesInPlace = some true ∧
+    Gen.Facts.c11LruUpdateStoresFirst = some true ∧ Gen.Facts.c11LruAddShape = some true ∧ Gen.Facts.c11LruGetShape = some true ∧
+    Gen.Facts.c11ConcurrentLruLocked = some true ∧ Gen.Facts.c11ShardedLruShardByHashMod = some true := by decide
 
 /-! ## non-vacuity -/
 
 example : ((Cache.new 1024 0).run id [.store 5 50 100 10 [], .store 69 51 100 10 [], .get 5 20, .get 69 101, .len]).2 =
     [.none, .none, .hit 50 100, .miss, .len 1] := by decide
 example : (Shard.set 2 [⟨1, 1, 9⟩, ⟨2, 2, 9⟩] ⟨3, 3, 9⟩ [2]).map (·.key) = [3, 1] := by decide
+example : ((SLru.new 2 2).run true id [.add 2 20, .add 4 40, .add 1 10, .get 2, .add 6 60, .add 2 21, .get 2, .get 4, .clean 2 1, .len]).2 =
+    [.evicted [], .evicted [], .evicted [], .hit 20, .evicted [⟨4, 40⟩], .evicted [], .hit 21, .miss, .evicted [⟨2, 21⟩, ⟨1, 10⟩], .len 1] := by decide
+example : ((Cache.new 0 64).mrun id [.base (.store 7 1 0 0 []), .base (.store 71 2 0 0 [7]), .range ⟨1, 0, .setAdd 100⟩, .base (.get 71 0), .base (.get 7 0), .base .len]).2 =
+    [.none, .none, .len 1, .hit 102 0, .miss, .len 1] := by decide
 
 end Props.C11
